@@ -327,8 +327,7 @@ func SSHPublicKey(info Info, data []byte) (Info, error) {
 }
 
 func UUIDValue(info Info, data []byte) (Info, error) {
-	s := strings.TrimSpace(string(data))
-	u, err := uuid.Parse(s)
+	u, err := parseUUID(data)
 	if err != nil {
 		return info, fmt.Errorf("uuid.Parse: %w", err)
 	}
